@@ -10,6 +10,14 @@ def script_reuse(n, m):
     s += "".join(f"addval 0 i{100 + i} @0 ;; " for i in range(m))
     return s, n, m
 
+def script_churn(value, n, rounds):
+    """steady state: n values, then `rounds` times remove-one/add-one and overwrite/restore of a value that needs more than
+    its own slot (a double or a 64-bit integer is held in an extension slot): no allocator call may happen after the fill"""
+    s = "toarr 0 @0 ;; " + "".join(f"addval 0 {value} @0 ;; " for _ in range(n))
+    for r in range(rounds):
+        s += f"rmidx 0 0 @0 ;; addval 0 {value} @0 ;; setelem 0 {r % n} i7 @0 ;; setelem 0 {r % n} {value} @0 ;; "
+    return s, 1 + n
+
 def script_dedup(users, text):
     h = hx(text)
     s = "toarr 0 @0 ;; " + "".join(f"addval 0 s{h} @0 ;; " for _ in range(users))
@@ -23,12 +31,15 @@ def check(run):
     model = vlib.need_model()
     cfg = "10001"
     oracle_fail, all_mism = [], []
-    geoms = [{}, {"ARDUINOJSON_POOL_CAPACITY": 4, "ARDUINOJSON_INITIAL_POOL_COUNT": 1}, {"ARDUINOJSON_SLOT_ID_SIZE": 1, "ARDUINOJSON_POOL_CAPACITY": 8, "ARDUINOJSON_INITIAL_POOL_COUNT": 2}]
+    geoms = [{}, {"ARDUINOJSON_POOL_CAPACITY": 4, "ARDUINOJSON_INITIAL_POOL_COUNT": 1}, {"ARDUINOJSON_SLOT_ID_SIZE": 1, "ARDUINOJSON_POOL_CAPACITY": 8, "ARDUINOJSON_INITIAL_POOL_COUNT": 2},
+             {"ARDUINOJSON_USE_LONG_LONG": 0, "ARDUINOJSON_POOL_CAPACITY": 8}]
     nh = 1500 if thorough else 200
     for gi, defs in enumerate(geoms):
         impl = vlib.need_harness("hist_h", cfg, defs)
         seeds = [run.seed * 100000 + 1300000 + gi * 10000 + k for k in range(nh)]
         hists = histcheck.gen_histories(model, seeds, 60 if not defs else 30, ndocs=3)
+        if "ARDUINOJSON_USE_LONG_LONG" in defs:
+            hists = []      # 64-bit integers are outside this configuration: scripted parts only
         # append document-level endings: move / copy-construct / swap, then let everything be destroyed
         endings = [" dmove 0 1 @0 ;; ", " dcopyctor 0 2 @0 ;; ", " dswap 1 2 @0 ;; dmove 2 0 @0 ;; ", ""]
         hs = [h + rnd.choice(endings) for h in hists]
@@ -68,6 +79,27 @@ def check(run):
             if any(st[3] != st[2] for st in readd):
                 oracle_fail.append((cfg, "HRUN 1 0 - " + s[:3000], f"no allocator call while re-adding {m} values after {m} removals (freed slots reused first) [geometry {defs}]",
                                     " ".join(f"{st[2]}->{st[3]}" for st in readd)))
+        # values that occupy an extension slot (doubles, 64-bit integers): removal and overwriting give both slots back
+        for value in ("D3fb999999999999a", "i9223372036854775807", "i-9223372036854775808", "i18446744073709551615"):
+            if "ARDUINOJSON_USE_LONG_LONG" in defs and value[0] == "i":
+                continue
+            n_ = min(cap, 6)
+            rounds = (3 * cap + 5) if cap <= 16 else 40
+            if defs.get("ARDUINOJSON_SLOT_ID_SIZE") == 1:
+                rounds = min(rounds, 60)
+            s, fill = script_churn(value, n_, rounds)
+            io, c2 = vlib.run_lines(impl, ["CFG " + cfg, "HRUN 1 0 - " + s])
+            run.count(("churn", gi, value))
+            steps, trailer = histcheck.parse_run(io[1]) if len(io) > 1 else ([], "")
+            if c2 or len(steps) != fill + 4 * rounds:
+                oracle_fail.append((cfg, "HRUN 1 0 - " + s[:2000], "history runs", (c2 or str(len(steps)))[-300:])); continue
+            churn = steps[fill:]
+            grew = [i for i, st in enumerate(churn) if st[3] != st[2]]
+            if grew:
+                oracle_fail.append((cfg, "HRUN 1 0 - " + s[:3000], f"no allocator call in the steady state (remove/add and overwrite of {value}: every slot, extension slots included, is reused) [geometry {defs}]",
+                                    f"allocator called at churn steps {grew[:8]} ({len(grew)} calls in {len(churn)} steps)"))
+            if "leaked=0" not in trailer or "MISUSE" in trailer:
+                oracle_fail.append((cfg, "HRUN 1 0 - " + s[:2000], "memory returned", trailer))
         # equal copied strings are stored once and released when the last user disappears
         for users, text in ((30, b"a-string-of-20-bytes"), (3, b""), (200, b"x" * 100)):
             if defs.get("ARDUINOJSON_SLOT_ID_SIZE") == 1 and users > 100:
@@ -94,7 +126,7 @@ def check(run):
                 oracle_fail.append((cfg, "HRUN 1 0 - " + s[:2000], "the string node is released exactly when its last user is removed", f"{rms[-2][4]} -> {rms[-1][4]} live blocks"))
             if any(rms[i][4] != rms[0][4] for i in range(len(rms) - 1)):
                 oracle_fail.append((cfg, "HRUN 1 0 - " + s[:2000], "the string node stays while it has users", " ".join(str(x[4]) for x in rms[:12])))
-        run.sample(dict(geometry=defs, case=("HRUN 3 0 - " + hs[0])[:300]))
+        run.sample(dict(geometry=defs, case=("HRUN 3 0 - " + (hs[0] if hs else script_churn("D3fb999999999999a", 3, 2)[0]))[:300]))
     # memory requested while deserializing: one maximum-size string + linear in the bytes consumed
     implD = vlib.need_harness("doc_h", cfg)
     ins = [(b"J", t) for t in C03.inputs_json(rnd, 3000 if thorough else 600)] + [(b"M", t) for t in C03.inputs_mp(rnd, 3000 if thorough else 600)]
